@@ -372,10 +372,25 @@ def run(ctx, col: Collector):
         val, comb = params
         tnode = inline_single_assignment_locals(tools.node)
         rets = [n for n in walk_no_nested(tnode) if isinstance(n, ast.Return)]
-        if len(rets) != 1 or rets[0].value is None:
-            raise Unrecognised('tools.comment has not exactly one return', tools.node)
-        e = rets[0].value
         fpath = tools.file
+        # the return that builds the comment line by line is the one analysed below; any other return must not hand the text back as it came
+        joins = [r for r in rets if r.value is not None and any(isinstance(x, ast.Call) and isinstance(x.func, ast.Attribute) and x.func.attr == 'join' for x in ast.walk(r.value))]
+        for r in rets:
+            if r in joins[:1]:
+                continue
+            v = r.value
+            if v is None or (isinstance(v, ast.Constant) and v.value in ('', None)):
+                col.ok('C14-prefix', f'tools.comment:other-return@{r.lineno - tools.node.lineno}', 'an empty result for an empty comment', node=r, file=fpath)
+            elif any(isinstance(x, ast.Name) and x.id == val for x in ast.walk(v)):
+                col.bad('C14-prefix', f'tools.comment:other-return@{r.lineno - tools.node.lineno}', f'tools.comment has a path that returns `{norm(v)[:60]}`: the comment text goes out '
+                        f'without every line being prefixed with the marker - the second line of such a comment is read as a statement of the output language',
+                        node=r, file=fpath)
+            else:
+                col.unk('C14-prefix', f'tools.comment:other-return@{r.lineno - tools.node.lineno}', f'tools.comment also returns `{norm(v)[:60]}`, which this rule cannot relate to the '
+                        f'comment text', node=r, file=fpath)
+        if len(joins) != 1:
+            raise Unrecognised(f'tools.comment has {len(joins)} returns that join the comment lines', tools.node)
+        e = joins[0].value
         # shape 1: SEP.join(<line template> for line in val.split(S)) + TERMINATOR ; shape 2: ''.join(<line template ending in a line break> ...)
         term_s = None
         j = e
